@@ -667,6 +667,12 @@ def render(m: Model, d: Data, rc: RenderContext):
   rc.seg_data.fill_(wp.vec2i(-1, -1))
   has_splats = rc.splat_count > 0
 
+  if rc.bvh_ngeom + rc.bvh_nflexgeom == 0 and not has_splats and not rc.render_skybox:
+    # no geom in an enabled group: every pixel is background (an empty scene BVH cannot be queried)
+    rc.rgb_data.fill_(rc.background_color)
+    rc.depth_data.zero_()
+    return
+
   # Specialize the ray-cast helpers to the geom types present in the scene so the
   # compiler eliminates intersection branches for absent types.
   geom_ray_types = rc.geom_ray_types
